@@ -297,13 +297,20 @@ static int recv_events(m_ctx_t *c, int timeout) {
                  * NOTE: this will reduce refs counter for evt->src to just 1,
                  * ie: it stays alive because it is needed by an evt
                  */
+                bool expired = false;
                 if (p && p->flags & M_SRC_ONESHOT) {
                     if (p->type != M_SRC_TYPE_PS) {
                         /* Stop polling on it right now: its memory outlives it, as the event references it */
                         poll_set_new_evt(&c->ppriv, p, RM);
                         m_bst_remove(mod->srcs[p->type], p);
-                    } else {
+                    } else if (m_map_get(mod->subscriptions, p->ps_src.topic) == p) {
                         m_map_remove(mod->subscriptions, p->ps_src.topic);
+                    } else {
+                        /*
+                         * A oneshot subscription runs just once: it already did (or it was dropped),
+                         * this message was matched by it before that. Discard it.
+                         */
+                        expired = true;
                     }
                 }
                 
@@ -312,7 +319,7 @@ static int recv_events(m_ctx_t *c, int timeout) {
                  * In this case, check that any message was actually received,
                  * and it was from a know source type.
                  */
-                if (msg->fd_evt) {
+                if (msg->fd_evt && !expired) {
                     recved++;
                     if (msg->type != M_SRC_TYPE_PS || !msg->ps_evt->topic || strcmp(msg->ps_evt->topic, M_PS_MOD_POISONPILL)) {
                         push_evt(mod, evt);
